@@ -4,8 +4,7 @@ NOT_BUILT = "check not built yet in this round (design in DESIGN.md section 3); 
 
 
 def fill(claim, na):
-    for p in ["C04",  "C10", 
-              "C16"]:
+    for p in ["C04",  "C10"]:
         na(p, NOT_BUILT)
     na("C05", "equality of decoded flux with the sector dump is a statement about decoding arbitrary bit-streams "
               "(gap lengths, sync search, bit order, opcode placement); no clause is visible in the shape of the code "
@@ -138,3 +137,12 @@ def fill(claim, na):
           "that names are compared by tolower/toupper folding. regexec itself and drive/directory defaulting are not decided.",
           "Trusts the checker's POSIX ERE grammar and C-locale case mapping.",
           "DESIGN.md 3/C15")
+    claim("C16",
+          "mutation census of the drive tables; must-facts (with kills on selector updates) and dominance for every "
+          "connect_internal call; structural rule on check_sequence_fits' unconditional occupancy tests; key-provenance "
+          "of table lookups",
+          "Decides one clause for every option sequence: an attached surface is never overwritten, moved or hidden, and "
+          "lookups use the requested selector. The allocation order over histories (lowest free number, n and n+2, "
+          "policy switches) is a search over runtime state and is not decided.",
+          "Trusts std::map semantics and value semantics of selectors.",
+          "DESIGN.md 3/C16")
